@@ -77,10 +77,13 @@ type drawObs struct {
 	bytes    int
 	outcome  string // ok | panic
 	panicMsg string
+	consumed []uint32 // the raw words actually consumed
 }
 
 func observeDraw(n uint32, words []uint32) drawObs {
-	t := NewTape(TapeSpec{Mode: "raw", Words: words, Default: "zero"})
+	// after the scripted words the tape continues with seeded random words (no particular word,
+	// not even 0, may be assumed to be accepted: a sampler may reject the low end of the range)
+	t := NewTape(TapeSpec{Mode: "raw", Words: words, Default: "random", Seed: 0xc01})
 	t.limit = 8192
 	var o drawObs
 	func() {
@@ -102,6 +105,7 @@ func observeDraw(n uint32, words []uint32) drawObs {
 	}()
 	o.bytes = len(t.Served)
 	o.words = (len(t.Served) + 3) / 4
+	o.consumed = wordsOf(t.Served)
 	return o
 }
 
@@ -201,12 +205,7 @@ func init() {
 					c.Probe("raw_word_rejected", int64(o.words-1))
 				}
 				// the words actually consumed (tape words, then zero default)
-				cons := make([]uint32, o.words)
-				for i := range cons {
-					if i < len(tp) {
-						cons[i] = tp[i]
-					}
-				}
+				cons := o.consumed
 				last := cons[o.words-1]
 				// memorylessness: the accepted word alone gives the same result
 				a := observeDraw(n, []uint32{last})
@@ -225,7 +224,7 @@ func init() {
 				}
 				// the same words delivered one byte at a time give the same draw
 				if ti%4 == 0 {
-					tc := NewTape(TapeSpec{Mode: "raw", Words: tp, Default: "zero", Chunk: "one"})
+					tc := NewTape(TapeSpec{Mode: "raw", Words: cons, Default: "random", Seed: 0xc01, Chunk: "one"})
 					tc.limit = 8192
 					cres := under(tc, func(r *OpResult) { r.F = float64(spg.VerifRandomUint32n(n)) })
 					c.Fault("chunk-one-byte-reads", 1)
@@ -296,10 +295,17 @@ func (f *fastReader) Read(p []byte) (int, error) {
 	if f.reads == 0 {
 		binary.BigEndian.PutUint32(p, f.word)
 	} else {
-		if f.reads > 64 {
+		if f.reads > 256 {
 			panic(sentRunaway)
 		}
-		binary.BigEndian.PutUint32(p, f.cont)
+		// continuation after a rejected first word: the given word, then a varying sequence
+		// (no fixed word may be assumed to be accepted)
+		w := f.cont
+		if f.reads > 1 {
+			x := uint64(f.word)*0x9e3779b97f4a7c15 + uint64(f.reads)
+			w = uint32(splitmix64(&x) >> 32)
+		}
+		binary.BigEndian.PutUint32(p, w)
 	}
 	f.reads++
 	return 4, nil
@@ -717,7 +723,7 @@ func runC01API(c *Ctx, s *C01Spec) {
 		words = append(words, biasedWord(r, n))
 	}
 	for _, w := range words {
-		res := genOp(NewTape(TapeSpec{Mode: "raw", Words: []uint32{w}, Default: "zero"}), g)
+		res := genOp(NewTape(TapeSpec{Mode: "raw", Words: []uint32{w}, Default: "random", Seed: 0xa91}), g)
 		c.Eval(1)
 		c.T(res.brief())
 		c.Distinct(desc, w)
